@@ -44,13 +44,20 @@ Inductive answer := Ok | Err (e : err).
 
 Record layer := mkLayer {
   lg : grid;
-  lfmt : Z;                              (* the offered tile format *)
+  lfmt : Z;                              (* the format of the cache (png = 1; any other id for jpeg, mixed, ...) *)
   ldims : list (Z * (list Z * Z));       (* dimension -> (offered values, default value) *)
   lmx : Z; lmy : Z;                      (* meta_size (meta_buffer = 0) *)
   lskip_first : bool; lskip_odd : bool;  (* TileServiceGrid._skip_first_level / _skip_odd_level *)
   lqueryable : bool;                     (* has info_sources *)
-  lmax_tiles : option Z                  (* max_tile_limit (None or 0: no limit) *)
+  lmax_tiles : option Z;                 (* max_tile_limit (None or 0: no limit) *)
+  lmixed : bool                          (* cache `format: mixed` (request_format image/png) *)
 }.
+
+(* TileLayer.format / format_mime_type: a layer on a mixed cache offers image/png and nothing else (the stored tile
+   may be png or jpeg, the answer type is sniffed from the tile); the format of its tile manager stays "mixed", so
+   WMS-C (tiled=true) requests for png or jpeg are refused by _check_tiled *)
+Definition fmt_png : Z := 1.
+Definition offered_format (ly : layer) : Z := if lmixed ly then fmt_png else lfmt ly.
 
 Definition coord_in (c : coord) (l : list coord) : bool := existsb (coord_eqb c) l.
 Definition zin (v : Z) (l : list Z) : bool := existsb (Z.eqb v) l.
@@ -154,7 +161,7 @@ Definition dimensions_ok (ly : layer) (rdims : list (Z * Z)) : bool := forallb (
 (* TileLayer.render *)
 Definition render (ly : layer) (cached : list coord) (use_profiles : level_mode) (origin : option bool)
            (fmt : Z) (rdims : list (Z * Z)) (x y z : Z) : answer * list effect :=
-  if negb (fmt =? lfmt ly) then (Err InvalidFormat, [])
+  if negb (fmt =? offered_format ly) then (Err InvalidFormat, [])
   else match request_tile_coord ly use_profiles origin x y z with
        | None => (Err OutOfRange, [])
        | Some c =>
@@ -224,7 +231,7 @@ Definition serve_tile (ly : layer) (cached : list coord) (q : treq) : answer * l
       else if negb (rset_ok q) then (Err UnknownMatrixSet, [])
       else match rsvc q with
            | WmtsRest => render ly cached mode_wmts (Some true)
-                                (match rfmt q with Some f => f | None => lfmt ly end) (rdims q) x y z
+                                (match rfmt q with Some f => f | None => offered_format ly end) (rdims q) x y z
            | _ => if negb (rinfo_ok q) then (Err UnknownInfoFormat, [])
                   else featureinfo ly (Some true) q x y z
            end
@@ -257,6 +264,9 @@ Definition over_tile_limit (ly : layer) (n : Z) : bool :=
 
 (* CacheMapLayer._image *)
 Definition cache_image (ly : layer) (cached : list coord) (q : mreq) : answer * list effect :=
+  if negb (bbox_intersects (gx0 (lg ly), gy0 (lg ly), gx1 (lg ly), gy1 (lg ly)) (mb q)) then (Ok, [])   (* NoTiles *)
+  else if (mw q =? 0) || (mh q =? 0) then (Err Internal, [])     (* get_resolution divides by the size: uncaught, 500 *)
+  else
   match affected_level (lg ly) (mb q) (mw q) (mh q) with
   | None => (Ok, [])                                   (* NoTiles -> blank image *)
   | Some l =>
@@ -311,6 +321,7 @@ Definition effective_query (ly : layer) (q : mreq) : option mreq :=
 
 (* number of tiles of the tile grid that _image computes for a query (None: no tiles / invalid bbox) *)
 Definition tile_count (ly : layer) (q : mreq) : option Z :=
+  if (mw q =? 0) || (mh q =? 0) then None else
   match affected_level (lg ly) (mb q) (mw q) (mh q) with
   | None => None
   | Some l =>
@@ -320,14 +331,34 @@ Definition tile_count (ly : layer) (q : mreq) : option Z :=
     end
   end.
 
-(* WMSServer.check_map_request + CacheMapLayer.get_map *)
-Definition serve_map (max_pixels : option Z) (ly : layer) (cached : list coord) (q : mreq) : answer * list effect :=
-  if over_pixel_limit max_pixels q then (Err TooLarge, [])
-  else if mtiled q && negb (mfmt q =? lfmt ly) then (Err BadTileFormat, [])
+(* CacheMapLayer.get_map on the query that WMSServer.map hands to the layer *)
+Definition layer_map (ly : layer) (cached : list coord) (q : mreq) : answer * list effect :=
+  if mtiled q && negb (mfmt q =? lfmt ly) then (Err BadTileFormat, [])   (* _check_tiled compares with the tile manager format: "mixed" for a mixed cache *)
   else if mtiled q && negb ((mw q =? tw (lg ly)) && (mh q =? th (lg ly))) then (Err BadTileSize, [])
   else match effective_query ly q with
        | None => (Ok, [])
        | Some q' => cache_image ly cached q'
+       end.
+
+(* WMSServer.map: a request reaching beyond the extent configured for its SRS (services.wms.bbox_srs with an
+   explicit bbox; se = None: no such extent) is cut down to that extent; the new query is a plain one (the
+   tiled=true flag is not carried over); None: nothing of the request lies inside, a blank image is answered *)
+Definition srs_limited (se : option bbox) (q : mreq) : option mreq :=
+  match se with
+  | None => Some q
+  | Some e =>
+    if extent_contains e (mb q) then Some q
+    else if negb (bbox_intersects e (mb q)) then None
+    else let q' := clip_to_extent e q in Some (mkMap (mb q') (mw q') (mh q') (mfmt q') false)
+  end.
+
+(* WMSServer.check_map_request (the pixel limit is checked first, on the requested size) + WMSServer.map *)
+Definition serve_map (max_pixels : option Z) (se : option bbox) (ly : layer) (cached : list coord) (q : mreq)
+  : answer * list effect :=
+  if over_pixel_limit max_pixels q then (Err TooLarge, [])
+  else match srs_limited se q with
+       | None => (Ok, [])
+       | Some q1 => layer_map ly cached q1
        end.
 
 (* ---- comparison helpers for the correspondence: effects are compared as sets per class, upstream requests
